@@ -184,6 +184,9 @@ func (d *DetInformer) PendingListeners() []int {
 	return out
 }
 
+// Cursor is the position in the API log up to which this informer's cache has been brought.
+func (d *DetInformer) Cursor() int { return d.cursor }
+
 // ListenerPending returns the number of notifications listener id has not handled yet.
 func (d *DetInformer) ListenerPending(id int) int {
 	if id < 0 || id >= len(d.listeners) {
